@@ -59,13 +59,17 @@ PLAN = {
         "level": "fault_enumeration",
         "rule": "scenario = 1-4 consecutive injector lifetimes of 0-8 installs over 2-6 packed targets with repetition, exit by drop or injected panic, on a seeded layout/kernel; distinct = distinct (variant, history shape, layout, policy) class tuples among non-trivial scenarios",
         "assumptions": [A_S, A_N],
-        "parts": [s_part("S-histories", "C02", LINUX3, 24000, 2400000), n_part("N-histories", "C02", 640, 64000)],
+        "parts": [s_part("S-histories", "C02", LINUX3, 24000, 2400000),
+                  s_part("S-histories-windows-macos", "C02", "x86_64_windows,aarch64_windows,aarch64_macos,x86_64_macos", 800, 40000, selftest=40),
+                  n_part("N-histories", "C02", 640, 64000)],
     },
     "C03": {
         "level": "fault_enumeration",
         "rule": "as C02 with bystander functions packed at 16-byte pitch between targets; every write/munmap event is judged; distinct = class tuples",
         "assumptions": [A_S, A_N],
-        "parts": [s_part("S-histories", "C03", LINUX3, 24000, 2400000), n_part("N-histories", "C03", 480, 48000)],
+        "parts": [s_part("S-histories", "C03", LINUX3, 24000, 2400000),
+                  s_part("S-histories-windows-macos", "C03", "x86_64_windows,aarch64_windows,aarch64_macos,x86_64_macos", 800, 40000, selftest=40),
+                  n_part("N-histories", "C03", 480, 48000)],
     },
     "C06": {
         "level": "fault_enumeration",
@@ -142,7 +146,9 @@ PLAN = {
         "level": "fault_enumeration",
         "rule": "as C02; the mmap/munmap ledger is judged after every call and at every scope exit; plus the cycles family: 200 to 100000 create/install/drop cycles in one process (1-6 installs per cycle over 8 targets with repetition, refused installs, 1 in 7 cycles ending by panic), ledger judged per cycle and executable anonymous mappings compared before the first / every 4096 / after the last cycle; distinct = class tuples",
         "assumptions": [A_S, A_N],
-        "parts": [s_part("S-histories", "C12", "x86_64_linux,aarch64_linux", 24000, 2400000), n_part("N-histories", "C12", 480, 48000),
+        "parts": [s_part("S-histories", "C12", "x86_64_linux,aarch64_linux", 24000, 2400000),
+                  s_part("S-histories-windows-macos", "C12", "x86_64_windows,aarch64_windows,aarch64_macos,x86_64_macos", 800, 40000, selftest=40),
+                  n_part("N-histories", "C12", 480, 48000),
                   n_part("N-cycles", "C12", 16, 128, selftest=4, extra_args=["--family", "cycles"])],
     },
     "C15": {
